@@ -339,7 +339,18 @@ func followUps(x any, twins ...any) (string, string) {
 					sort.Stable(tv)
 				}
 			}},
-			{"Reveal", func() { tv.Reveal() }}, {"Defrag", func() { tv.Defrag() }}, {"String again", func() { _ = tv.String() }}, {"Pop", func() { tv.Pop() }}, {"Reset", func() { tv.Reset() }},
+			{"Reveal", func() { tv.Reveal() }},
+			// round 14: each element once more as the ONLY child of a plain wrapper inside a parent that is revealed
+			{"Reveal of a parent of single-element wrappers", func() {
+				parent := stackage.And()
+				for i := 0; i < tv.Len() && i < 8; i++ {
+					if e, ok := tv.Index(i); ok {
+						parent.Push(stackage.Or().Push(e))
+					}
+				}
+				parent.Reveal()
+			}},
+			{"Defrag", func() { tv.Defrag() }}, {"String again", func() { _ = tv.String() }}, {"Pop", func() { tv.Pop() }}, {"Reset", func() { tv.Reset() }},
 		}
 	case stackage.Condition:
 		var twin any = tv
